@@ -144,6 +144,15 @@ def calls_for(W, rng):
         W.stats[2] += W.stats[1]
         return None, None
 
+    def accumulate():
+        # the usual accumulation idiom: an empty container, then += of every session's statistics
+        from bob.learn.em import GMMStats
+
+        acc = GMMStats(C, D)
+        for s_ in W.stats[:2]:
+            acc += s_
+        return None, [acc]
+
     def lin():
         return None, [linear_scoring(W.models, W.ubm, W.stats, 0, True), linear_scoring(W.models[0], W.ubm, W.stats[0])]
 
@@ -178,7 +187,7 @@ def calls_for(W, rng):
     out = {"kmeans_fit_0": (kmeans(0), []), "kmeans_fit_2": (kmeans(2), []), "gmm_ml_fit": (gmm_ml, []), "gmm_map_fit": (gmm_map, []),
            "gmm_map_partial_fit": (gmm_map_partial, []), "gmm_map_unfitted_use": (gmm_map_unfitted, []),
            "gmm_kmeans_init_fit": (gmm_kmeans_init, []), "acc_stats_transform": (acc, []), "stats_add": (add, []),
-           "stats_iadd": (iadd, ["stats2.n", "stats2.sum_px", "stats2.sum_pxx"]), "linear_scoring": (lin, []), "isv_fit_enroll_score": (isv, []),
+           "stats_iadd": (iadd, ["stats2.n", "stats2.sum_px", "stats2.sum_pxx"]), "stats_accumulate_from_empty": (accumulate, []), "linear_scoring": (lin, []), "isv_fit_enroll_score": (isv, []),
            "jfa_fit_enroll_score": (jfa, []), "isv_array_entry_points": (isv_array, []), "ivector_fit_project": (ivec, []), "wccn_whitening": (linear, [])}
     if D < 1:
         out.pop("wccn_whitening")
